@@ -346,3 +346,6 @@ Definition run_case (c : case_input) : list (code * list (list N)) :=
 Definition run_case_fixed (c : case_input) : list (code * list (list N)) :=
   let '((maxexp, debond), (keys, ents), ops) := c in
   run_obs (fun k => k) true maxexp debond keys ents ops st0.
+(* which SetNode order the current source has is read from the source (Gen/RegistryConsts.v) *)
+Definition run_case_b (fixed : bool) (c : case_input) : list (code * list (list N)) :=
+  if fixed then run_case_fixed c else run_case c.
